@@ -324,7 +324,7 @@ func checkC01(c *Ctx) {
 				if !ch.State.Tomb {
 					out.violate(P, "delete-not-tombstone", "delete-not-tombstone", "key %s: delete wrote a live version", key)
 				}
-			} else if ch.State.Tomb || ch.State.Val != r.Op.Val {
+			} else if ch.State.Tomb || ch.State.Val != string(world.Bytes(r.Op.Val)) {
 				out.violate(P, "wrong-value-written", "wrong-value-written", "key %s rev %d: wrote %q tomb=%v, request value %q", key, ch.State.Rev, ch.State.Val, ch.State.Tomb, r.Op.Val)
 			}
 			if r.Done && r.Err == "" && !r.OK {
